@@ -76,7 +76,7 @@ Lemma replace_child_gen d n c ch ch' :
   (forall a, a <> c -> nth_error (n_children n') a = nth_error (n_children n) a) /\
   (flatten ch' = flatten ch -> forall a, pre n' a = pre n a /\ post n' a = post n a).
 Proof.
-  intros Sh E Sch' n'. pose proof Sh as (H1 & H2 & L & F).
+  intros Sh E Sch' n'. pose proof Sh as (H1 & H2 & L & F & Cpx).
   assert (Hc : c < length (n_children n)) by (eapply nth_error_lt; eauto).
   split; [|split; [|split; [|split; [|split]]]].
   - unfold n'. cbn [BTreeBase.shape]. unfold n_count. cbn [n_items n_cap n_children]. rewrite replace_at_length by auto.
